@@ -47,6 +47,8 @@ pub struct RWorld {
     pub dsk: Vec<String>,
     pub ddk: Vec<String>,
     pub wpol: Vec<String>,
+    /// directed scripts per fragment kind for the short / ragged witness class: (text, script bytes); [0] pre-taproot keys, [1] x-only keys
+    pub directed: [Vec<(String, Vec<u8>)>; 2],
 }
 
 const CI: [CtxInfo; 4] = [
@@ -125,8 +127,10 @@ impl RWorld {
             dsk: vec![],
             ddk: vec![],
             wpol: vec![],
+            directed: [vec![], vec![]],
         };
         rw.build_pools();
+        rw.build_directed();
         rw
     }
 
@@ -253,6 +257,54 @@ impl RWorld {
             format!("wsh(multi(2,[{}/48'/0']{}/<0;1>/*,{}/<2;3>/*))", fp0, self.xpub[0], self.xpub[1]),
             format!("pkh([{}/44'/0'/0']{}/<0;1>/*)", fp0, self.xpub[2]),
         ];
+    }
+
+    /// one script per fragment kind (multisigs of every k, thresh, and_b / or_b chains, hash
+    /// fragments, every wrapper, the or_* / andor family, time locks): what the short and ragged
+    /// witnesses of the `interp` / `psbt` classes are run against
+    fn build_directed(&mut self) {
+        let h32 = crate::ast::hex(self.w.sha256_img(0).as_ref());
+        let h256 = crate::ast::hex(self.w.hash256_img(0).as_ref());
+        let h20 = crate::ast::hex(self.w.hash160_img(1).as_ref());
+        let r20 = crate::ast::hex(self.w.ripemd160_img(1).as_ref());
+        let common: &[&str] = &[
+            "pk(A)", "pkh(A)", "and_b(pk(A),s:pk(B))", "and_b(and_b(pk(A),s:pk(B)),s:pk(C))", "or_b(pk(A),s:pk(B))",
+            "or_b(or_b(pk(A),s:pk(B)),s:pk(C))", "thresh(1,pk(A),s:pk(B))", "thresh(2,pk(A),s:pk(B),s:pk(C))", "thresh(3,pk(A),s:pk(B),s:pk(C))",
+            "sha256(H32)", "hash256(H256)", "ripemd160(R20)", "hash160(H20)", "and_b(sha256(H32),a:hash160(H20))", "or_b(sha256(H32),a:ripemd160(R20))",
+            "thresh(1,sha256(H32),a:hash256(H256),a:hash160(H20))", "andor(pk(A),pk(B),pk(C))", "or_d(pk(A),pk(B))", "t:or_c(pk(A),v:pk(B))",
+            "or_i(pk(A),pk(B))", "and_v(v:pk(A),pk(B))", "and_v(v:pk(A),older(1))", "and_v(v:pk(A),after(1))", "j:pk(A)", "n:pk(A)", "dv:older(1)",
+            "and_b(pk(A),a:pk(B))", "and_b(pk(A),sdv:older(1))", "or_d(j:pk(A),pk(B))", "or_i(0,pk(A))", "andor(sha256(H32),pk(A),pkh(B))",
+        ];
+        let pre: &[&str] = &[
+            "multi(1,A,B)", "multi(1,A,B,C)", "multi(2,A,B,C)", "multi(3,A,B,C)", "sortedmulti(2,A,B,C)", "multi(2,A,B)",
+            "and_b(multi(1,A,B),a:multi(1,C,A))", "or_b(multi(2,A,B),a:multi(1,C,A))", "thresh(2,multi(1,A,B),a:multi(2,C,A),a:multi(1,B,C))",
+            "andor(multi(1,A,B),pk(C),multi(2,A,C))", "or_d(multi(2,A,B,C),pk(A))", "t:or_c(multi(1,A,B),v:multi(1,C,A))", "or_i(multi(1,A,B),multi(2,A,B,C))",
+            "and_v(v:multi(2,A,B),multi(1,C,A))", "j:multi(2,A,B)", "n:multi(1,A,B)", "and_b(n:multi(1,A,B),sj:multi(1,C,A))",
+        ];
+        let tap: &[&str] = &[
+            "multi_a(1,A,B)", "multi_a(1,A,B,C)", "multi_a(2,A,B,C)", "multi_a(3,A,B,C)", "sortedmulti_a(2,A,B,C)",
+            "and_b(multi_a(1,A,B),a:multi_a(1,C,A))", "or_b(multi_a(2,A,B),a:multi_a(1,C,A))", "thresh(2,multi_a(1,A,B),a:multi_a(2,C,A),a:multi_a(1,B,C))",
+            "andor(multi_a(1,A,B),pk(C),multi_a(2,A,C))", "or_d(multi_a(2,A,B,C),pk(A))", "or_i(multi_a(1,A,B),multi_a(2,A,B,C))", "and_v(v:multi_a(2,A,B),multi_a(1,C,A))",
+        ];
+        let fill = |t: &str, tapk: bool| -> String {
+            t.replace("H32", &h32).replace("H256", &h256).replace("H20", &h20).replace("R20", &r20)
+                .replace('A', &self.hexkey(0, tapk)).replace('B', &self.hexkey(1, tapk)).replace('C', &self.hexkey(2, tapk))
+        };
+        let mut d0 = Vec::new();
+        for t in common.iter().chain(pre.iter()) {
+            let txt = fill(t, false);
+            if let Ok(m) = Miniscript::<bitcoin::PublicKey, Segwitv0>::from_str_with_validation_params(&txt, &ValidationParams::MAX) {
+                d0.push((t.to_string(), m.encode().into_bytes()));
+            }
+        }
+        let mut d1 = Vec::new();
+        for t in common.iter().chain(tap.iter()) {
+            let txt = fill(t, true);
+            if let Ok(m) = Miniscript::<bitcoin::key::XOnlyPublicKey, Tap>::from_str_with_validation_params(&txt, &ValidationParams::MAX) {
+                d1.push((t.to_string(), m.encode().into_bytes()));
+            }
+        }
+        self.directed = [d0, d1];
     }
 
     pub fn checksum(&self, body: &str) -> String { bip380_checksum(body).unwrap_or_else(|| "qqqqqqqq".into()) }
@@ -1370,8 +1422,8 @@ pub static CLASSES: &[Class] = &[
     Class { name: "bytes.decode.legacy", entry: "Miniscript<_,Legacy>::{decode,decode_consensus,decode_with_validation_params}, lex", quick: 1500, thorough: 15000, chunk: 300, gen: bin::g_script1, run: bin::run_decode::<Legacy> },
     Class { name: "bytes.decode.segwitv0", entry: "Miniscript<_,Segwitv0>::{decode,decode_consensus,decode_with_validation_params}, lex", quick: 3000, thorough: 30000, chunk: 300, gen: bin::g_script2, run: bin::run_decode::<Segwitv0> },
     Class { name: "bytes.decode.tap", entry: "Miniscript<_,Tap>::{decode,decode_consensus,decode_with_validation_params}, lex", quick: 3000, thorough: 30000, chunk: 300, gen: bin::g_script3, run: bin::run_decode_tap },
-    Class { name: "interp", entry: "Interpreter::from_txdata + iter / iter_assume_sigs / inferred_descriptor", quick: 4000, thorough: 40000, chunk: 400, gen: bin::g_interp, run: bin::run_interp },
-    Class { name: "psbt", entry: "PsbtExt::{finalize_mut,finalize_mall_mut,finalize_inp_mut,update_input_with_descriptor,update_output_with_descriptor,sighash_msg,extract}", quick: 2500, thorough: 25000, chunk: 250, gen: bin::g_psbt, run: bin::run_psbt },
+    Class { name: "interp", entry: "Interpreter::from_txdata + iter / iter_assume_sigs / inferred_descriptor", quick: 20000, thorough: 80000, chunk: 400, gen: bin::g_interp, run: bin::run_interp },
+    Class { name: "psbt", entry: "PsbtExt::{finalize_mut,finalize_mall_mut,finalize_inp_mut,update_input_with_descriptor,update_output_with_descriptor,sighash_msg,extract}", quick: 3500, thorough: 30000, chunk: 250, gen: bin::g_psbt, run: bin::run_psbt },
     Class { name: "plan", entry: "Descriptor::{plan,into_plan,plan_mall,into_plan_mall} with Assets; Plan::{satisfy,update_psbt_input}", quick: 2500, thorough: 25000, chunk: 250, gen: bin::g_plan, run: bin::run_plan },
     Class { name: "value.policy", entry: "Concrete constructors (And/Or/Thresh) -> lift, compile, normalized, is_valid", quick: 2000, thorough: 20000, chunk: 250, gen: bin::g_pol, run: bin::run_pol },
     Class { name: "value.cmp", entry: "Miniscript/Terminal ==, Ord::cmp, Hash on generated pairs incl. neighbours", quick: 3000, thorough: 30000, chunk: 500, gen: bin::g_pair, run: bin::run_pair },
